@@ -34,7 +34,7 @@ ASSUMPTIONS = [
 ]
 REQUIRED = {"all": ["salted_objects", "renders_checked", "valid_updates", "rejected_missing_key", "rejected_bad_colour", "rejected_non_dict",
                     "rejected_padded_missing_key", "multi_object_histories", "lengths_10k_plus_1", "render_after_reject", "rejected_empty_mapping",
-                    "caller_edits_after_accept", "second_handle_updates", "long_update_histories", "live_palette_dictionaries_handed_back", "palette_updates_on_shuffled_copies", "stock_palette_updates"]}
+                    "caller_edits_after_accept", "second_handle_updates", "long_update_histories", "live_palette_dictionaries_handed_back", "palette_updates_on_shuffled_copies", "stock_palette_updates", "same_dictionary_object_reused_for_another_object"]}
 NHIST = {"quick": 1000, "thorough": 8000}
 COLOURS = ['aqua', 'black', 'blue', 'fuchsia', 'gray', 'green', 'lime', 'maroon', 'navy', 'olive', 'orange', 'purple',
            'red', 'silver', 'teal', 'white', 'yellow']
@@ -170,6 +170,10 @@ def judge(case, rep, S):
             expect_ok = False
         elif kind == "valid_padded":
             d["X"] = "red"
+            if rng.random() < 0.5:
+                # a lower-case twin of a residue key is an extra key: the residue's colour is the one under its own letter
+                a_ = rng.choice(list(M.AA))
+                d[a_.lower()] = rng.choice([c for c in COLOURS if c != d[a_]])
             if rng.random() < 0.6:
                 # entries for keys that are not amino acids take no part: whatever their values are
                 d[rng.choice(["X", "B", "name", "*"])] = rng.choice(["pink", "#aa00aa", "my scheme", None, 3])
@@ -232,6 +236,31 @@ def judge(case, rep, S):
         ctx = "after %s update #%d, history %s" % ("accepted" if accepted else "rejected", step + 1, hist)
         for o, s, m in zip(objs, seqs, models):
             check_render(rep, o.get_HTMLColorString(), s, m, ctx)
+        if accepted and nobj > 1 and kind in ("valid", "valid_padded", "stock_palette") and rng.random() < 0.35:
+            # the caller edits the dictionary just accepted and hands the SAME object to another sequence object
+            j_ = (k + 1) % nobj
+            a_ = rng.choice(list(M.AA))
+            if rng.random() < 0.7:
+                d[a_] = rng.choice([c for c in COLOURS if c != d.get(a_)])
+                try:
+                    objs[j_].set_HTMLColorResiduePalette(d)
+                    for a2 in M.AA:
+                        models[j_][a2] = d[a2]
+                except Exception as e:
+                    rep.viol("valid_rejected", "a valid dictionary (accepted by another object before, then edited) was rejected: %s: %s" % (type(e).__name__, e))
+                    return
+            else:
+                d[a_] = "pink"
+                try:
+                    objs[j_].set_HTMLColorResiduePalette(d)
+                except Exception:
+                    rep.cnt("rejected_bad_colour")
+                else:
+                    rep.viol("invalid_accepted", "a dictionary that another object had accepted and that was then given the colour 'pink' for %s was accepted" % a_, sig={"kind": "reused_object"})
+                    return
+            rep.cnt("same_dictionary_object_reused_for_another_object")
+            for o, s, m in zip(objs, seqs, models):
+                check_render(rep, o.get_HTMLColorString(), s, m, ctx + " + the same dictionary object, edited, given to another object")
         if rng.random() < 0.12:
             # a shuffled copy (nothing, something or everything frozen) is another object: colouring it does not colour its parent
             N_ = len(seqs[k])
